@@ -244,23 +244,25 @@ structure Inv (d : Dec) : Prop where
   size_eq  : d.size = totalLen d.fragments
   empty    : d.size = 0 → d.fragments = []
   declared : d.size ≠ 0 → 0 < d.expected ∧ (d.size : Int) + d.expected ≤ maxFrameLen
+  nonempty : ∀ f ∈ d.fragments, 0 < f.length
 
 def Clean (d : Dec) : Prop := d.size = 0 ∧ d.fragments = []
 
 instance (d : Dec) : Decidable (Clean d) := by unfold Clean; infer_instance
 
-theorem c08_inv_init : Inv {} := ⟨rfl, fun _ => rfl, by simp⟩
+theorem c08_inv_init : Inv {} := ⟨rfl, fun _ => rfl, by simp, by simp⟩
 
 theorem inv_of_clean (d : Dec) (h1 : d.size = 0) (h2 : d.fragments = []) : Inv d :=
-  ⟨by simp [h1, h2], fun _ => h2, fun h => absurd h1 h⟩
+  ⟨by simp [h1, h2], fun _ => h2, fun h => absurd h1 h, by simp [h2]⟩
 
 /-- **C08**: the invariant is preserved by `Decode` on EVERY packet. -/
 theorem c08_inv_decode (d : Dec) (p : Pkt) (hi : Inv d) : Inv (decode d p).1 := by
-  obtain ⟨h1, h2, h3⟩ := hi
+  obtain ⟨h1, h2, h3, h5⟩ := hi
   have hreset : ∀ d' : Dec, Inv d'.reset := fun d' => inv_of_clean _ rfl rfl
   unfold decode
   split
   · exact hreset d
+  rename_i hlen5
   split
   · exact hreset d
   simp only []
@@ -269,14 +271,17 @@ theorem c08_inv_decode (d : Dec) (p : Pkt) (hi : Inv d) : Inv (decode d p).1 := 
       with h | ⟨b, fl, hb1, hb2, hb3, h⟩
     · rw [h]; exact inv_of_clean _ rfl rfl
     · rw [h]
-      refine ⟨by simp [Dec.reset], ?_, ?_⟩
+      refine ⟨by simp [Dec.reset], ?_, ?_, ?_⟩
       · intro hz; simp only at hz; omega
       · intro _
         have hb2' : fl ≤ 1729 := hb2
         simp only; show _ ∧ _ ≤ ((1729 : Nat) : Int); omega
+      · intro f hf
+        simp only [Dec.reset, List.nil_append, List.mem_singleton] at hf
+        subst hf; omega
   split
   · split
-    · exact ⟨h1, h2, h3⟩
+    · exact ⟨h1, h2, h3, h5⟩
     · exact hreset d
   rename_i hoff0 hoff
   have hz : d.size ≠ 0 := by
@@ -285,10 +290,29 @@ theorem c08_inv_decode (d : Dec) (p : Pkt) (hi : Inv d) : Inv (decode d p).1 := 
   · exact inv_of_clean _ rfl rfl
   rename_i hneg
   split
-  · refine ⟨by simp [h1], ?_, ?_⟩
+  · refine ⟨by simp [h1], ?_, ?_, ?_⟩
     · intro h; simp only at h; omega
     · intro _; simp only at hneg ⊢; have := h3 hz; omega
+    · intro f hf
+      simp only [List.mem_append, List.mem_singleton] at hf
+      rcases hf with hf | hf
+      · exact h5 f hf
+      · subst hf; simp only [List.length_drop]; omega
   · exact inv_of_clean _ rfl rfl
+
+/-- **C08 bounded memory, number of retained slices**: every retained fragment is non-empty, so the
+decoder never holds more slices than retained bytes. -/
+theorem c08_fragment_count_le (d : Dec) (hi : Inv d) : d.fragments.length ≤ retained d := by
+  unfold retained
+  have h := hi.nonempty
+  generalize d.fragments = fs at h
+  induction fs with
+  | nil => simp
+  | cons f rest ih =>
+    have := h f (by simp)
+    have := ih (fun x hx => h x (by simp [hx]))
+    simp only [List.length_cons, totalLen, List.map_cons, List.sum_cons] at this ⊢
+    omega
 
 /-- **C08 bounded memory**: retained bytes never exceed the largest MPEG-1/2 audio frame (1729
 bytes), whatever the packet sizes. -/
@@ -304,7 +328,7 @@ theorem c08_retained_le (d : Dec) (hi : Inv d) : retained d ≤ maxFrameLen := b
 /-- **C08 output bound**: every returned frame is at most the largest MPEG-1/2 audio frame. -/
 theorem c08_out_le (d : Dec) (p : Pkt) (fs : List Bytes) (hi : Inv d)
     (h : (decode d p).2 = .ok fs) : ∀ f ∈ fs, f.length ≤ maxFrameLen := by
-  obtain ⟨h1, h2, h3⟩ := hi
+  obtain ⟨h1, h2, h3, _⟩ := hi
   unfold decode at h
   split at h
   · simp at h
@@ -629,6 +653,49 @@ theorem c03_roundtrip_many (e : Enc) (gs : List (List Bytes)) (d : Dec) (hc : Va
 
 /-! ## C07 — resynchronisation -/
 
+theorem splitFrames_ok_state (d : Dec) (fuel : Nat) (buf : Bytes) (fr out : List Bytes)
+    (h : (splitFrames d fuel buf fr).2 = .ok out) : (splitFrames d fuel buf fr).1 = d := by
+  induction fuel generalizing buf fr with
+  | zero => simp [splitFrames] at h
+  | succ n ih =>
+    simp only [splitFrames] at h ⊢
+    cases hs : parseHeader buf with
+    | none => simp [hs] at h
+    | some hd =>
+      simp only [hs] at h ⊢
+      split
+      · rename_i h1
+        simp only [h1, ↓reduceIte] at h
+        split
+        · rfl
+        · rename_i h2
+          simp only [h2, ↓reduceIte] at h
+          exact ih _ _ h
+      · rename_i h1
+        simp only [h1, ↓reduceIte] at h
+        split at h <;> simp at h
+
+/-- **C07 at most once**: whenever frames are returned the fragment buffer is empty afterwards —
+nothing can be returned twice. -/
+theorem c07_ok_empties (d : Dec) (p : Pkt) (fs : List Bytes) (h : (decode d p).2 = .ok fs) :
+    Clean (decode d p).1 := by
+  generalize hr : decode d p = r at h ⊢
+  unfold decode at hr
+  split at hr
+  · subst hr; simp at h
+  split at hr
+  · subst hr; simp at h
+  simp only [] at hr
+  split at hr
+  · subst hr; rw [splitFrames_ok_state _ _ _ _ _ h]; exact ⟨rfl, rfl⟩
+  split at hr
+  · split at hr <;> (subst hr; simp at h)
+  split at hr
+  · subst hr; simp at h
+  split at hr
+  · subst hr; simp at h
+  · subst hr; exact ⟨rfl, rfl⟩
+
 /-- **C07 flush**: from ANY state, the packets of one intact valid group, in order, leave the
 decoder clean (every piece starts with an offset-0 packet, which resets the fragment state). -/
 theorem c07_flush (e : Enc) (fs : List Bytes) (d : Dec) (hc : ValidCfg e.cfg) (hf : ValidFrame fs) :
@@ -667,6 +734,6 @@ set_option maxRecDepth 8000 in
 example : Fits (exEnc 100).cfg [exUnit, exUnit] := by unfold Fits; decide
 /-- a dirty state (mid-frame) satisfies the invariant -/
 example : Inv { first := true, fragments := [[1, 2], [3]], size := 3, expected := 45 } :=
-  ⟨by decide, by decide, by decide⟩
+  ⟨by decide, by decide, by decide, by decide⟩
 
 end Rtsp.Codec.Mpeg1Audio
